@@ -580,7 +580,7 @@ def _pdf_cases():
     line = _tok().map(lambda t: f"line {t} of text")
     page = st.lists(line, min_size=1, max_size=3)
     return st.fixed_dictionaries({"mech": st.just("pdf"), "alg": st.sampled_from(list(pdfw.ALGORITHMS)), "user_pw": st.sampled_from(["", "", "pw123", "äö secret"]),
-                                  "owner_pw": st.sampled_from([None, "owner", "pw123"]), "pages": st.lists(page, min_size=1, max_size=3), "compress": st.booleans(),
+                                  "owner_pw": st.sampled_from([None, None, "owner", "pw123", ""]), "pages": st.lists(page, min_size=1, max_size=3), "compress": st.booleans(),
                                   "image": st.booleans(), "title": st.one_of(st.none(), _tok())})
 
 
@@ -617,7 +617,8 @@ def _pdf_build(m):
             pg["images"] = [{"data": imgenc.jpeg(8, 8), "w": 8, "h": 8, "name": "Im1"}]
         pages.append(pg)
     plain = pdfw.write_pdf(pages, info={"Title": m["title"]} if m.get("title") else None, compress=m["compress"])
-    enc = pdfw.encrypt_pdf(plain, user_password=m["user_pw"], owner_password=m["owner_pw"] or (m["user_pw"] or "owner-only"), algorithm=m["alg"])
+    # owner_pw None: no owner password (pypdf then uses the user password for both, so decrypt("") answers "owner password matched")
+    enc = pdfw.encrypt_pdf(plain, user_password=m["user_pw"], owner_password=m["owner_pw"], algorithm=m["alg"])
     return plain, enc
 
 
